@@ -498,7 +498,9 @@ Fixpoint rc_check_from (cf : rcfg) (now : N) (cache : N -> option (N * N)) (prev
       | QTick dt => rc_check_from cf (now + dt) cache sn ms' obs'
       | QStart c k =>
           let q := nth_status sn c in
-          (if key_busy prev k
+          (if negb (match nth_status prev c with QIdle | QRet _ => true | _ => false end)
+           then true                                    (* c is inside Start already: not enabled *)
+           else if key_busy prev k
            then match q with QRet RPending => true | _ => false end          (* pending is reported *)
            else match q with
                 | QRet RPending => false                                      (* nothing was pending *)
